@@ -31,7 +31,7 @@ LEAN_MODULE = "Signac.Properties.C10"
 DRIVER = "drv_fs"
 DESIGN_REF = "DESIGN.md §4 C10"
 RULE = ("scenarios = {job document, project document, buffered flush of 2-4 documents, update_cache} x "
-        "{old file absent / empty / small / >64 KiB / >1 MiB} x {setitem, update, delitem, clear, reset} "
+        "{old file absent / empty / small / >64 KiB / >1 MiB} x {setitem, update, delitem, clear, reset, whole-document assignment through the owner's setter} "
         "(cache: first write, growing, shrinking workspace, stale '~' file); for each scenario every "
         "file-system step of the real write x {die before it} and every write step x {die after 1 byte, "
         "half, all-but-one byte}, plus one raw and one signac-API reader process at every position of the "
@@ -55,7 +55,7 @@ CLASSES = ("0", "1", "half", "all-but-one")
 # ----------------------------------------------------------------------------
 # scenario generation
 # ----------------------------------------------------------------------------
-DOC_OPS = ("setitem", "update", "delitem", "clear", "reset")
+DOC_OPS = ("setitem", "update", "delitem", "clear", "reset", "assign")
 SIZES = ("absent", "empty", "small", "mid", "big")
 
 
@@ -89,6 +89,8 @@ def scenarios(tier, rng):
     out.append(_doc_sc(rng, "jobdoc", "mid", "update"))
     out.append(_doc_sc(rng, "jobdoc", "big", "setitem"))
     out.append(_doc_sc(rng, "jobdoc", "big", "reset"))
+    out.append(_doc_sc(rng, "jobdoc", "small", "assign"))
+    out.append(_doc_sc(rng, "projdoc", "small", "assign"))
     out.append(_doc_sc(rng, "projdoc", "absent", "setitem"))
     out.append(_doc_sc(rng, "projdoc", "small"))
     out.append(_doc_sc(rng, "projdoc", "mid", "reset"))
@@ -198,7 +200,9 @@ def apply_op(doc, op, rng_seed):
         del doc["a"]
     elif op == "clear":
         doc.clear()
-    elif op == "reset":
+    elif op in ("reset", "assign"):
+        # "assign" = `job.document = new` / `project.document = new` (the owner's setter, see build());
+        # on a plain dict both mean: replace the whole content
         new = {"fresh": val, "n": {"deep": {"er": [1, 2, 3]}}}
         if hasattr(doc, "reset"):
             doc.reset(new)
@@ -236,13 +240,19 @@ def build(sc, d, mutant=None):
     rel = lambda p: os.path.relpath(p, d).replace(os.sep, "/")  # noqa: E731
     kind = sc["kind"]
 
-    def add_doc(dsc, holder, fn_doc, reader):
+    def add_doc(dsc, holder, fn_doc, reader, owner=None):
         r = random.Random(dsc["seed"])
         old = make_doc(r, dsc["size"])
         _write_json(fn_doc, old)
         b.targets.append({"path": rel(fn_doc), "fmt": "json", "old": old,
                           "want": intended(old, dsc["op"], dsc["seed"])})
         b.api.append(reader)
+        if dsc["op"] == "assign" and owner is not None:
+            def assign():
+                probe = {}
+                apply_op(probe, "assign", dsc["seed"])     # the same new value as `intended`
+                owner.document = probe                        # whole-document assignment through the owner's setter
+            return assign
         return lambda: apply_op(holder(), dsc["op"], dsc["seed"])
 
     def job_reader(job_id):
@@ -255,16 +265,16 @@ def build(sc, d, mutant=None):
 
     if kind == "jobdoc":
         job = proj.open_job({"a": rng.randint(0, 99), "tag": "c10"}).init()
-        b.fn = add_doc(sc, lambda: job.document, job.fn(Job.FN_DOCUMENT), job_reader(job.id))
+        b.fn = add_doc(sc, lambda: job.document, job.fn(Job.FN_DOCUMENT), job_reader(job.id), owner=job)
     elif kind == "projdoc":
-        b.fn = add_doc(sc, lambda: proj.document, proj.fn(signac.Project.FN_DOCUMENT), proj_reader)
+        b.fn = add_doc(sc, lambda: proj.document, proj.fn(signac.Project.FN_DOCUMENT), proj_reader, owner=proj)
     elif kind == "flush":
         ops = []
         for i, dsc in enumerate(sc["docs"]):
             job = proj.open_job({"a": i, "tag": "flush"}).init()
-            ops.append(add_doc(dsc, (lambda j: (lambda: j.document))(job), job.fn(Job.FN_DOCUMENT), job_reader(job.id)))
+            ops.append(add_doc(dsc, (lambda j: (lambda: j.document))(job), job.fn(Job.FN_DOCUMENT), job_reader(job.id), owner=job))
         if sc.get("proj"):
-            ops.append(add_doc(sc["proj"], lambda: proj.document, proj.fn(signac.Project.FN_DOCUMENT), proj_reader))
+            ops.append(add_doc(sc["proj"], lambda: proj.document, proj.fn(signac.Project.FN_DOCUMENT), proj_reader, owner=proj))
 
         def flush_fn():
             with signac.buffered():
